@@ -45,6 +45,8 @@ def mkObj (cls : String) (args : List String) : Option (Out AnyObj) :=
     | _ => none
   else if L2.classes.contains cls then some ((L2.mk cls args) >>= fun o => pure (.l2 o))
   else if Ip.classes.contains cls then some ((Ip.mk cls args) >>= fun o => pure (.ip o))
+  else if Ip6.classes.contains cls then some ((Ip6.mk cls args) >>= fun o => pure (.ip6 o))
+  else if Icmp.classes.contains cls then some ((Icmp.mk cls args) >>= fun o => pure (.icmp o))
   else if Transport.classes.contains cls then some ((Transport.mk cls args) >>= fun o => pure (.tr o))
   else if App.classes.contains cls then some ((App.mk cls args) >>= fun o => pure (.app o))
   else if Wifi.classes.contains cls then some ((Wifi.mk cls args) >>= fun o => pure (.wifi o))
